@@ -41,6 +41,8 @@ type View struct {
 
 	SetImage string
 	RevImage map[string]string // revision name -> template image, over revisions stored before or after
+	// ForeignObs: the observedGeneration somebody else last wrote into the status (OpStatusRestored), 0 if nobody did
+	ForeignObs int64
 	// RevTemplate: revision name -> the whole template it records (harness-side JSON decode)
 	RevTemplate map[string]*corev1.PodTemplateSpec
 
